@@ -8,7 +8,8 @@ def decIntegration : String → M Integration
   | k => throw s!"bad integration {k}"
 
 /-- status_by_error: {"k":"default"} | {"k":"table","map":[[code,status]…],"else":status}: the status
-of the first error code listed in the table, else the fallback -/
+of the first error code listed in the table, else the fallback; "single" / "count": functions that look at the
+length / multiplicities of the tuple -/
 def decStatusFn (j : J) : M (List Int → Int) := do
   match (← str (← fld j "k")) with
   | "default" => pure fun _ => 200
@@ -22,6 +23,21 @@ def decStatusFn (j : J) : M (List Int → Int) := do
       match codes.findSome? (fun c => (tbl.find? (fun p => p.1 == c)).map (·.2)) with
       | some s => s
       | none => dflt
+  | "single" =>
+    -- sensitive to the *length* of the codes tuple: the table applies to one-element tuples only
+    let tbl ← listOf (fun e => do
+      match (← arr e) with
+      | [c, s] => pure ((← int c), (← int s))
+      | _ => throw "bad status entry") (← fld j "map")
+    let dflt ← int (← fld j "else")
+    pure fun codes =>
+      match codes with
+      | [c] => ((tbl.find? (fun p => p.1 == c)).map (·.2)).getD dflt
+      | _ => dflt
+  | "count" =>
+    -- sensitive to multiplicity: base + the number of error (non-zero) codes
+    let base ← int (← fld j "base")
+    pure fun codes => base + (codes.filter (· != 0)).length
   | k => throw s!"bad status fn {k}"
 
 def encHttpReply (r : HttpReply) : J :=
